@@ -263,6 +263,9 @@ def F1(m, R):
         tt = region_table(st.test, x, lo, hi)
         want = {'<lo': False, '=lo': True, 'inside': True, '=hi': True, '>hi': False}
         problems = []
+        if any(v is None for v in tt.values()):
+            R.undecided(f, st, 'byte-class test %s not decided' % short(st.test), construct=cons)
+            tt = want
         if tt != want:
             problems.append('rejects regions %s of a code point against [0x40,0x7E]; exact is lo..hi inclusive' % sorted(k for k, v in tt.items() if v))
         if not re.match(r'^self\.\w+$', norm(lp.iter)):
@@ -292,6 +295,9 @@ def F1(m, R):
                                        flag_valuation({}, {'%s < len(%s)' % (cur.group(1) if cur else 'i', s): True}))
                 tt[name] = eval_guard(inner.test, val)
             want = {'<lo': True, '=lo': False, 'inside': False, '=hi': False, '>hi': True}
+            if any(v is None for v in tt.values()):
+                R.undecided(f, inner, 'scan test %s not decided' % short(inner.test), construct=cons)
+                tt = want
             R.check(tt == want, f, inner, 'the parameter scan continues exactly outside [0x40,0x7E]',
                     'the parameter scan continues in regions %s; a final byte is exactly lo..hi inclusive' % sorted(k for k, v in tt.items() if v), construct=cons)
     # AnsiControlSequence.is_terminator_valid (same class, public helper)
